@@ -160,7 +160,7 @@ def gen_history(rng, tier, collide_use=False):
             tw.write_read(do_read=False)
             kinds.append('write')
         else:
-            tw.write_read(do_read=True, detect_rf_use=rng.random() < 0.3)
+            tw.write_read(do_read=True, detect_rf_use=rng.random() < 0.3, remove_duplicates=rng.random() < 0.6)
             kinds.append('read')
             tw.on._pv_was_read = True
             last_stored = {}      # what is stored now is what the file holds (no `use`, rounded values)
